@@ -27,6 +27,9 @@ var scLight = false
 // scSeed seeds the layout choice (set from VERIF_SEED by scopeRuns).
 var scSeed int64 = 1
 
+// scCoreKinds: statement forms of the deeper exhaustive cores (three items quick for the light families, four items thorough).
+var scCoreKinds = `{"local","use","assign","assign2","do","repeat","fornum","lfunc","lefunc","gfunc"}`
+
 // scKinds: statement forms enabled for the full BFS and the simulation (default: all).
 var scKinds = scAllKinds
 
@@ -366,7 +369,7 @@ func scopeRunsOnce(c *Ctx, p *pool.Pool, build func(id int, raw json.RawMessage)
 	if scLight && !c.Thorough() {
 		// families with several queries per occurrence: three items only over the scoping-relevant forms, one file
 		if !c.streamRun("bfs3_core"+sfx, tlc.Run{Module: "Scope", Workers: 8, Timeout: 30 * time.Minute,
-			Cfg: scCfg(`{"a","b"}`, 3, 3, 1, `{"local","use","assign","assign2","do","repeat","fornum","lfunc","lefunc","gfunc"}`, 3, "Next", "Emit")}, p, 8, build, judge) {
+			Cfg: scCfg(`{"a","b"}`, 3, 3, 1, scCoreKinds, 3, "Next", "Emit")}, p, 8, build, judge) {
 			return false
 		}
 	}
@@ -377,7 +380,7 @@ func scopeRunsOnce(c *Ctx, p *pool.Pool, build func(id int, raw json.RawMessage)
 	if c.Thorough() {
 		// four items over the statement forms that interact with scoping (no second file, no methods)
 		if !c.streamRun("bfs4_core"+sfx, tlc.Run{Module: "Scope", Workers: 8, Timeout: 60 * time.Minute,
-			Cfg: scCfg(`{"a","b"}`, 4, 4, 1, `{"local","use","assign","assign2","do","repeat","fornum","lfunc","lefunc","gfunc"}`, 4, "Next", "Emit")}, p, 8, build, judge) {
+			Cfg: scCfg(`{"a","b"}`, 4, 4, 1, scCoreKinds, 4, "Next", "Emit")}, p, 8, build, judge) {
 			return false
 		}
 	}
